@@ -16,6 +16,9 @@ RULE = ("Containers.tla: representations (plain buffer, ring buffer with every h
 def run(ctx):
     q = ctx.quick
     r = ctx.tlc("cont", "MCContainers", "MCContainers_quick.cfg" if q else "MCContainers_thorough.cfg", workers=8, timeout=3000)
+    # slot -> cell maps of rings and strided views: in the storage and injective for EVERY capacity, head, offset and
+    # stride (TLA+ proof system, 105 obligations; the operators are Containers.tla's own, ContIdx.tla)
+    ctx.tlaps("containers-proof", "ContainersProof", needs=("ContIdx",))
     binp = ctx.build("tvh-cont", features="pl", timeout=6000)
     ctx.harness("cont", binp, ["replay-cont", "--in", r["emitted"]])
     # the driver-level matrix of C02 (call protocol on every backend / output / path) belongs here too
